@@ -95,6 +95,7 @@ def run(ctx, profile, note, known_obs=None, extra_trusted=None):
     })
     ctx.assumptions = ["critical sections are atomic; atomics are sequentially consistent registers"]
     ctx.write_evidence("proof")
+    shutil.rmtree(conc_diff.TRACE_DIR, ignore_errors=True)
 
 
 def replay(ctx, rp):
